@@ -107,6 +107,8 @@ class NodeBase(object):
 
     RESERVED_PARAMETER_NAMES = ("__all__", "__real__", "__root__", "__error__")
 
+    _update_failed = False  # True while the node is stale because an update failed under a Fallback (see mark_for_update)
+
     def __init__(self, name=None):
         """
         :param name: the name of the node
@@ -337,12 +339,22 @@ class NodeBase(object):
         Sets this node's stale property to True.
         """
         if not self.stale:
+            self._update_failed = False
             if not self.frozen:
                 self._stale = True
                 self.notify_parents()
-        elif any(not _p.stale for _p in self.iter_parents()) and not self.frozen:
-            # An update of this node failed while a parent went on to compute its value (Fallback): the parent still has to be told.
+        elif self._update_failed and not self.frozen:
+            # An update of this node failed while a Fallback above it went on with an alternative: the Fallback still has to be told.
             self.notify_parents()
+
+    def _flag_failed_update(self):
+        """
+        Flags this node and the stale nodes below it after a failed update: they pass on later notifications although they are stale.
+        """
+        if self.stale and not self._update_failed:
+            self._update_failed = True
+            for _child in self.get_children():
+                _child._flag_failed_update()
 
     def update(self):
         """
@@ -731,7 +743,7 @@ class Fallback(ValueNode):
             try:
                 return _node.value
             except self._exception_type:
-                pass  # function failed; try next
+                _node._flag_failed_update()  # function failed; try next
 
         raise RuntimeError("Error evaluating fallback node '{}': " "no alternative succeeded".format(self.name))
 
